@@ -54,6 +54,7 @@ import (
 	"github.com/AdguardTeam/AdGuardDNS/internal/websvc"
 	"github.com/AdguardTeam/golibs/logutil/slogutil"
 	"github.com/AdguardTeam/golibs/netutil"
+	"github.com/AdguardTeam/golibs/service"
 	"github.com/ameshkov/dnscrypt/v2"
 	"github.com/ameshkov/dnsstamps"
 	"github.com/miekg/dns"
@@ -633,6 +634,70 @@ func (fx *vc20Fixture) vc20BasePorts(ilc *interfaceListenersConfig) (res *interf
 	return res
 }
 
+// vc20ExerciseAllowlist runs builder.initRateLimiter against the allowlist
+// source of the environment: a closed port (the backend or Consul is down), or
+// the fake rate-limit backend, which answers, fails, or answers first and fails
+// on a later refresh.  A source that is down or failing must end the step in
+// an ordinary error, or leave the stale data in use, never in a panic.
+func (fx *vc20Fixture) vc20ExerciseAllowlist(ctx context.Context, o *vc20Outcome, c *configuration, b *builder) {
+	rlc := c.RateLimit
+	backendOnly := rlc.Allowlist.Type == rlAllowlistTypeBackend && !c.isProfilesEnabled() &&
+		c.Check.RemoteKV.Type != kvModeBackend
+	be := fx.rlBackend
+	answers := be != nil && !be.refuse && rlc.Allowlist.Type == rlAllowlistTypeBackend
+	if answers {
+		// Only reached when the initial refresh succeeds.
+		b.sigHdlr = service.NewSignalHandler(&service.SignalHandlerConfig{
+			Logger:          b.baseLogger,
+			ShutdownTimeout: time.Second,
+		})
+	}
+
+	ictx, cancel := context.WithTimeout(ctx, 3*time.Second)
+	defer cancel()
+
+	failing := !answers || be.fail.Load()
+	ok := o.step("ratelimit-init", func() (err error) { return b.initRateLimiter(ictx) })
+	switch {
+	case ok && failing:
+		o.fail("ratelimit-init: the allowlist source is down but the initial refresh reports success")
+	case !ok && !failing && o.stepErrs["ratelimit-init"] != "":
+		o.classes = append(o.classes, "allowlist-backend-answers-but-init-fails")
+	case ok:
+		o.classes = append(o.classes, "allowlist-backend-answers")
+	}
+
+	if failing && backendOnly {
+		o.classes = append(o.classes, "allowlist-backend-only-with-failing-backend")
+	}
+
+	if !ok || !answers || !be.laterFail {
+		return
+	}
+
+	// The backend goes down after the start-up; the next refresh (the refresh
+	// worker calls exactly this) must report it.
+	be.fail.Store(true)
+	defer be.fail.Store(false)
+
+	updater := b.debugRefrs[debugIDAllowlist]
+	if updater == nil {
+		o.fail("ratelimit-init: no allowlist refresher is registered")
+
+		return
+	}
+
+	later := o.step("allowlist-later-refresh", func() (err error) { return updater.Refresh(ictx) })
+	if later {
+		o.fail("allowlist-later-refresh: the backend is failing but the refresh reports success")
+	}
+
+	o.classes = append(o.classes, "allowlist-backend-fails-later")
+	if backendOnly {
+		o.classes = append(o.classes, "allowlist-backend-only-with-failing-backend")
+	}
+}
+
 // vc20Exercise builds what the builder would build from c and serves queries.
 func (fx *vc20Fixture) vc20Exercise(c *configuration) (o *vc20Outcome) {
 	o = &vc20Outcome{stepErrs: map[string]string{}}
@@ -807,6 +872,9 @@ func (fx *vc20Fixture) vc20Exercise(c *configuration) (o *vc20Outcome) {
 	// As in Main, the gRPC metrics come before the users of the backend.
 	okGRPC := o.step("grpc-metrics", func() (err error) { return b.initGRPCMetrics(ctx) })
 	okCheck := okMsgs && okGRPC && o.step("dnscheck", func() (err error) { return b.initDNSCheck(ctx) })
+	if okGRPC {
+		fx.vc20ExerciseAllowlist(ctx, o, c, b)
+	}
 
 	if okCheck && okTLS && !webSame {
 		o.step("web", func() (err error) {
